@@ -102,7 +102,9 @@ func (rl *Shell) Readline() (string, error) {
 		accepted, line, err := rl.run(false, bind, command)
 		if accepted {
 			return line, err
-		} else if command != nil {
+		} else if command != nil || bind.Macro {
+			// (The keys of a macro must be matched against
+			// the local keymap first, like any other keys)
 			continue
 		}
 
